@@ -92,6 +92,12 @@ def run_one(ch, ctx):
     parsed = ch.chance(50)
     S = F.parse_schema(schema) if parsed else schema
     WS = F.parse_schema(wrap_schema) if parsed else wrap_schema
+    # the fault enumerations below always use the parsed objects (re-parsing a raw schema
+    # for each of hundreds of faulted decodes only costs time); raw schemas are exercised
+    # in the fault-free configuration
+    PS = S if parsed else F.parse_schema(schema)
+    PWS = WS if parsed else F.parse_schema(wrap_schema)
+    PRS = F.parse_schema(reader_schema)
     desc = {"schema": schema, "value": jsonable(d), "encoding": enc.hex()[:600], "len": len(enc),
             "layout": lay.stats, "parsed": parsed}
     ctx.sample = desc
@@ -122,7 +128,7 @@ def run_one(ch, ctx):
     # ---- cut(k): every proper prefix, both modes -----------------------------------------
     for k in _cuts(ch, len(enc), ctx.tier):
         try:
-            v = F.schemaless_reader(ReadOnlySeq(enc, cut=k), S)
+            v = F.schemaless_reader(ReadOnlySeq(enc, cut=k), PS)
         except Exception as e:  # noqa
             ctx.stat("exc_" + type(e).__name__)
             n_eval += 1
@@ -131,7 +137,7 @@ def run_one(ch, ctx):
         raise Violation("cut", "prefix-decoded", detail={"mode": "read", "cut": k, "returned": jsonable(v)}, scenario=desc)
     for k in _cuts(ch, len(wenc), ctx.tier):
         try:
-            v = F.schemaless_reader(ReadOnlySeq(wenc, cut=k), WS, reader_schema)
+            v = F.schemaless_reader(ReadOnlySeq(wenc, cut=k), PWS, PRS)
         except Exception as e:  # noqa
             n_eval += 1
             ctx.fault("cut_skip")
@@ -139,7 +145,7 @@ def run_one(ch, ctx):
         raise Violation("cut", "prefix-decoded", detail={"mode": "skip", "cut": k, "returned": jsonable(v), "wrapped_encoding": wenc.hex()[:600]}, scenario=desc)
 
     # ---- bad_index at every site ---------------------------------------------------------------
-    for mode, data, st, sch, rs in (("read", enc, sites, S, None), ("skip", wenc, wsites, WS, reader_schema)):
+    for mode, data, st, sch, rs in (("read", enc, sites, PS, None), ("skip", wenc, wsites, PWS, PRS)):
         cap = 48 if ctx.tier == "quick" else 512
         if len(st) > cap:
             # very many index sites (large collections of unions/enums): first, last and a seeded sample
